@@ -306,12 +306,13 @@ REL_TOL = {2: 5e-2, 4: 1e-3, 6: 2e-4}
 
 
 def judge(order, e_max, e_rms, scale, N2):
-    """error small relative to the individual terms AND shrinking at >= ~2^(p-2) (or already at the round-off floor)"""
+    """error small relative to the individual terms AND shrinking by >= 2^p / 2.5 when the resolution doubles (observed on
+    the unchanged tree: within [2^p / 1.6, 2^p * 1.5]), or already at the round-off floor"""
     (m1, m2), (r1, r2) = e_max, e_rms
     floor = 1e-13 * scale * N2 ** 2 * 50
     small = m2 <= REL_TOL[order] * scale
     ratio = r1 / r2 if r2 > 0 else np.inf
-    conv = (ratio >= 2.0 ** (order - 2)) or (r2 <= floor)
+    conv = (ratio >= 2.0 ** order / 2.5) or (r2 <= floor)
     return small and conv, ratio
 
 
